@@ -7,6 +7,7 @@ PROP = {
         {"name": "stimer", "quick": 500000, "thorough": 5000000, "maxlen": 100},
         {"name": "timer_manager_u32", "quick": 400000, "thorough": 5000000, "maxlen": 160},
         {"name": "timer_manager_specs", "quick": 400000, "thorough": 5000000, "maxlen": 200},
+        {"name": "timer_callbacks", "quick": 200000, "thorough": 2000000, "maxlen": 120},
         {"name": "timer_manager_big", "quick": 300000, "thorough": 5000000, "maxlen": 400},
         {"name": "stimer_big", "quick": 400000, "thorough": 4000000, "maxlen": 120},
     ],
